@@ -79,9 +79,9 @@ def _is_select(t: Any) -> bool:
     return isinstance(t, lark.Tree) and t.data == "member_dot"
 
 
+# (macros whose iteration variable is not an identifier, and the reduce()/min() extension macros, used to be listed here; the text parses, so the
+# properties speak of it: the crashes they caused were repaired in /repo and the remaining runner difference is a recorded finding)
 OUT_OF_DOMAIN = {
-    "macro-var-not-ident": "macro whose iteration variable is not an identifier: not an expression of CEL (reference parsers reject it)",
-    "nonstandard-macro": "reduce()/min() are extensions of this library, not built-in CEL macros",
     "has-arg-not-select": "has() whose argument is not a field selection: a parse-time error in CEL",
 }
 
